@@ -36,7 +36,7 @@ class Rec:
 
 def gen_case(rng, idx, tier):
   cap = rng.choice([0, 1, 1, 2, 2, 3, 3, 4, 5, 6])
-  n = rng.randint(0, 40 if tier == 'quick' else 120)
+  n = rng.randint(0, common.sz(tier, 40, 120))
   kind = rng.choice(['int', 'tie', 'tuple', 'float', 'rec'])
   keypool = rng.choice([[0], [0, 1], ['a', 'b', 'c'], [1, 1.0, 2, 'x'], [0.5, 7, 'k', (1, 2)]])
   ops = []
@@ -179,7 +179,7 @@ def run(tier):
   ck = Check('C14', tier)
   ck.prove('props/C14.v', gen_targets=['heapdict', 'search', 'geoassignments'], extra=['harness/RunC14.vo', 'harness/RunSearch.vo'])
   rng = random.Random(ck.seed * 1000003 + 14)
-  n = 2000 if tier == 'quick' else 100000
+  n = common.sz(tier, 2000, 100000)
   corpus = [
       {'idx': -1, 'cap': 2, 'kind': 'tie', 'ops': [('push', 0, 1), ('push', 0, 1), ('push', 0, 1), ('read',), ('push', 0, 0), ('push', 0, 2), ('read',)]},
       {'idx': -2, 'cap': 0, 'kind': 'int', 'ops': [('push', 'a', 3), ('read',)]},
@@ -226,7 +226,7 @@ def run(tier):
 def search_part(ck, tier):
   """Order and cap of the designs returned by both searches."""
   from . import searchfam, search, search_oracles as so
-  n = 60 if tier == 'quick' else 1500
+  n = common.sz(tier, 60, 1500)
   base = ck.seed * 100003 + 14 * 1009
   res = common.pmap(searchfam.worker, [(base + i, tier, False, ('tables', 'components', 'exhaustive', 'greedy'), None)
                                        for i in range(n)], chunksize=4)
